@@ -253,9 +253,142 @@ class _Canon(ast.NodeTransformer):
             return ast.copy_location(ast.Compare(left=node.comparators[0], ops=[self.MIRROR[type(node.ops[0])]()], comparators=[node.left]), node)
         return node
 
+    # keyword spellings of builtin calls whose parameters are fixed by the language: (callee kind, name) -> parameter order
+    _BUILTIN_KW = {("name", "int"): ("x", "base"), ("attr", "split"): ("sep", "maxsplit"), ("attr", "rsplit"): ("sep", "maxsplit"),
+                   ("attr", "decode"): ("encoding", "errors"), ("attr", "encode"): ("encoding", "errors"),
+                   ("attr", "to_bytes"): ("length", "byteorder"), ("attr", "from_bytes"): ("bytes", "byteorder")}
+    _BUILTIN_DEFAULTS = {("split", "sep"): None, ("rsplit", "sep"): None, ("decode", "encoding"): "utf-8", ("encode", "encoding"): "utf-8"}
+
+    def visit_Call(self, node: ast.Call):
+        """`int(line, base=16)` -> `int(line, 16)`, `s.split(maxsplit=2, sep=b" ")` -> `s.split(b" ", 2)` ..: one spelling of the
+        arguments of builtins (argument expressions without effects only, since the order of evaluation may change)."""
+        self.generic_visit(node)
+        # all(E(k) for k in ("a", "b")) over a literal display of constants is `E("a") and E("b")` (any: or) - the same
+        # evaluations in the same order, short-circuit included
+        if isinstance(node.func, ast.Name) and node.func.id in ("all", "any") and len(node.args) == 1 and not node.keywords and isinstance(node.args[0], (ast.GeneratorExp, ast.ListComp)):
+            ge = node.args[0]
+            if len(ge.generators) == 1 and not ge.generators[0].ifs and not ge.generators[0].is_async and isinstance(ge.generators[0].target, ast.Name) \
+                    and isinstance(ge.generators[0].iter, (ast.Tuple, ast.List)) and 2 <= len(ge.generators[0].iter.elts) <= 6 \
+                    and all(isinstance(x, ast.Constant) for x in ge.generators[0].iter.elts) and isinstance(ge, ast.GeneratorExp) \
+                    and (isinstance(ge.elt, ast.Compare) or (isinstance(ge.elt, ast.UnaryOp) and isinstance(ge.elt.op, ast.Not))) \
+                    and not any(isinstance(x, (ast.Lambda, ast.NamedExpr, ast.GeneratorExp, ast.ListComp, ast.SetComp, ast.DictComp)) for x in ast.walk(ge.elt)):
+                import copy as _copy
+
+                var = ge.generators[0].target.id
+
+                def inst(c_):
+                    class _S(ast.NodeTransformer):
+                        def visit_Name(self, n_):
+                            return ast.copy_location(_copy.deepcopy(c_), n_) if n_.id == var and isinstance(n_.ctx, ast.Load) else n_
+
+                    return _S().visit(_copy.deepcopy(ge.elt))
+
+                new = ast.BoolOp(op=ast.And() if node.func.id == "all" else ast.Or(), values=[inst(c_) for c_ in ge.generators[0].iter.elts])
+                return ast.fix_missing_locations(ast.copy_location(new, node))
+        if not node.keywords or any(k.arg is None for k in node.keywords) or any(isinstance(a, ast.Starred) for a in node.args):
+            return node
+        key = ("name", node.func.id) if isinstance(node.func, ast.Name) else ("attr", node.func.attr) if isinstance(node.func, ast.Attribute) else None
+        order = self._BUILTIN_KW.get(key)
+        if order is None or any(k.arg not in order for k in node.keywords):
+            return node
+        by = {k.arg: k.value for k in node.keywords}
+        if any(order.index(a) < len(node.args) for a in by):
+            return node
+        from .inline import _pure
+
+        if not all(_pure(v) for v in by.values()):
+            return node
+        args = list(node.args)
+        top = max(order.index(a) for a in by)
+        for i in range(len(args), top + 1):
+            if order[i] in by:
+                args.append(by[order[i]])
+            elif (key[1], order[i]) in self._BUILTIN_DEFAULTS:
+                args.append(ast.copy_location(ast.Constant(value=self._BUILTIN_DEFAULTS[(key[1], order[i])]), node))
+            else:
+                return node
+        node.args, node.keywords = args, []
+        return node
+
+    def visit_Try(self, node: ast.Try):
+        """`try: x = D[K]  except KeyError: A  [else: B]`  ->  `if K in D: x = D[K]; B  else: A`  for plain D and K.
+
+        The mapping contract (`D[K]` raises KeyError exactly when `K not in D`) makes the two the same question; the
+        `in` form is the one whose outcomes the rules read as "item present" / "item absent"."""
+        self.generic_visit(node)
+        if len(node.body) != 1 or len(node.handlers) != 1 or node.finalbody:
+            return node
+        st, h = node.body[0], node.handlers[0]
+        if not (isinstance(h.type, ast.Name) and h.type.id == "KeyError"):
+            return node
+        if h.name and any(isinstance(x, ast.Name) and x.id == h.name for b in h.body for x in ast.walk(b)):
+            return node
+        if isinstance(st, ast.AnnAssign) and st.simple and st.value is not None:
+            tgt, val = st.target, st.value
+        elif type(st) is ast.Assign and len(st.targets) == 1:
+            tgt, val = st.targets[0], st.value
+        else:
+            return node
+        if not (isinstance(tgt, ast.Name) and isinstance(val, ast.Subscript) and not isinstance(val.slice, (ast.Slice, ast.Tuple))):
+            return node
+
+        def plain(e) -> bool:
+            if isinstance(e, ast.Constant) or isinstance(e, ast.Name):
+                return True
+            return isinstance(e, ast.Attribute) and plain(e.value)
+
+        if not (plain(val.value) and plain(val.slice)):
+            return node
+        import copy as _copy
+
+        test = ast.Compare(left=_copy.deepcopy(val.slice), ops=[ast.In()], comparators=[_copy.deepcopy(val.value)])
+        new = ast.If(test=test, body=[st] + list(node.orelse), orelse=list(h.body))
+        ast.copy_location(new, node)
+        ast.copy_location(test, st)
+        ast.fix_missing_locations(new)
+        return new
+
     def visit_Assign(self, node: ast.Assign):
         self.generic_visit(node)
         v = node.value
+        # `a, self.b = X, Y`  ->  `a = X; self.b = Y` where the split cannot be observed: every target but the last is a
+        # plain local that no later value reads (the right-hand sides are all evaluated before any store in the tuple form),
+        # and the later values call nothing (a call could see the earlier store through a closure)
+        if len(node.targets) == 1 and isinstance(node.targets[0], ast.Tuple) and isinstance(v, ast.Tuple) and len(v.elts) == len(node.targets[0].elts) >= 2 \
+                and not any(isinstance(x, ast.Starred) for x in list(v.elts) + list(node.targets[0].elts)):
+            tg, vs = node.targets[0].elts, v.elts
+            ok = all(isinstance(t, ast.Name) or (isinstance(t, ast.Attribute) and self._chain(t)) for t in tg)
+            if ok:
+                for i, t in enumerate(tg[:-1]):
+                    base = t
+                    while isinstance(base, ast.Attribute):
+                        base = base.value
+                    for later in vs[i + 1:]:
+                        # the later value must not be able to see the earlier store: it does not mention the local stored; of the
+                        # object whose attribute is stored it reads OTHER attributes at most (no callee receives the object itself,
+                        # as an argument or as the receiver of a method), and nothing is suspended
+                        fine = set()
+                        if isinstance(t, ast.Attribute):
+                            funcs = {id(c.func) for c in ast.walk(later) if isinstance(c, ast.Call)}
+                            for x in ast.walk(later):
+                                if isinstance(x, ast.Attribute) and isinstance(x.ctx, ast.Load) and isinstance(x.value, ast.Name) and x.value.id == base.id \
+                                        and id(x) not in funcs and not (t.value is not None and isinstance(t.value, ast.Name) and x.attr == t.attr):
+                                    fine.add(id(x.value))
+                        for x in ast.walk(later):
+                            if (isinstance(x, ast.Name) and x.id == base.id and id(x) not in fine) or isinstance(x, (ast.Await, ast.Yield, ast.YieldFrom, ast.NamedExpr, ast.Lambda)):
+                                ok = False
+            if ok and len({ast.dump(t) for t in tg}) == len(tg):
+                return [ast.copy_location(ast.Assign(targets=[t], value=val, type_comment=None), node) for t, val in zip(tg, vs)]
+            # otherwise through temporaries, which is what the tuple form does: every value first, then every store, in order
+            if all(isinstance(t, ast.Name) or (isinstance(t, ast.Attribute) and self._chain(t)) for t in tg):
+                _Canon._tup = getattr(_Canon, "_tup", 0) + 1
+                k = _Canon._tup
+                tmps = [f"_tup{k}_{i}" for i in range(len(tg))]
+                out = [ast.copy_location(ast.Assign(targets=[ast.Name(id=nm, ctx=ast.Store())], value=val, type_comment=None), val) for nm, val in zip(tmps, vs)]
+                out += [ast.copy_location(ast.Assign(targets=[t], value=ast.Name(id=nm, ctx=ast.Load()), type_comment=None), node) for nm, t in zip(tmps, tg)]
+                for st_ in out:
+                    ast.fix_missing_locations(st_)
+                return out
         # `self.buf[:0] = e` (prepend in place) -> `self.buf = e + self.buf` for an attribute chain: the same bytes for every
         # reader of the attribute (a bare local is left alone: there the two differ for an alias of the object)
         if len(node.targets) == 1 and isinstance(node.targets[0], ast.Subscript) and isinstance(node.targets[0].value, ast.Attribute) and self._chain(node.targets[0].value):
@@ -285,6 +418,7 @@ def _canon_ifexp_assign(tree: ast.AST) -> int:
     conditional assignment - the statement form, whose test is an edge of the graph and whose two values are two
     definitions (rules then see the same thing whichever way it was written)."""
     import copy as _copy
+    from .inline import InlineReturn as _InlineReturn
 
     done = 0
     for holder in list(ast.walk(tree)):
@@ -293,6 +427,19 @@ def _canon_ifexp_assign(tree: ast.AST) -> int:
             if not (isinstance(b, list) and b and isinstance(b[0], ast.stmt)):
                 continue
             for i, st in enumerate(b):
+                if type(st) is _InlineReturn and isinstance(st.value, ast.IfExp):
+                    # the `return a if c else b` of an inlined helper: two returns under the test
+                    ie = st.value
+                    rs = []
+                    for val in (ie.body, ie.orelse):
+                        r = _InlineReturn(targets=[_copy.deepcopy(st.targets[0])], value=val, type_comment=None)
+                        r.block = st.block
+                        rs.append(ast.copy_location(r, val))
+                    new = ast.copy_location(ast.If(test=ie.test, body=[rs[0]], orelse=[rs[1]]), st)
+                    ast.fix_missing_locations(new)
+                    b[i] = new
+                    done += 1
+                    continue
                 if type(st) is ast.Assign and len(st.targets) == 1 and isinstance(st.value, ast.IfExp) and (
                         isinstance(st.targets[0], ast.Name) or (isinstance(st.targets[0], ast.Attribute) and _Canon._chain(st.targets[0]))):
                     ie = st.value
@@ -303,6 +450,163 @@ def _canon_ifexp_assign(tree: ast.AST) -> int:
                     ast.fix_missing_locations(new)
                     b[i] = new
                     done += 1
+    return done
+
+
+def _canon_clamps(tree: ast.AST) -> int:
+    """`if x >= K: x = K` (no else) is `x = min(x, K)`; `if x <= K: x = K` is `x = max(x, K)` (also the strict forms and the
+    mirrored comparison; `if A and x >= K: x = K` is `if A: x = min(x, K)`).  The same number in every case (on a tie the two
+    spellings may pick the other of two equal numbers).  Range rules then meet ONE form of a clamp."""
+    import copy as _copy
+
+    done = 0
+    for holder in list(ast.walk(tree)):
+        for field in ("body", "orelse", "finalbody"):
+            b = getattr(holder, field, None)
+            if not (isinstance(b, list) and b and isinstance(b[0], ast.stmt)):
+                continue
+            for i, st in enumerate(b):
+                if not (type(st) is ast.If and not st.orelse and len(st.body) == 1 and type(st.body[0]) is ast.Assign and len(st.body[0].targets) == 1
+                        and isinstance(st.body[0].targets[0], ast.Name)):
+                    continue
+                x = st.body[0].targets[0].id
+                K = st.body[0].value
+                test, pre = st.test, None
+                if isinstance(test, ast.BoolOp) and isinstance(test.op, ast.And):
+                    pre, test = test.values[:-1], test.values[-1]
+                if not (isinstance(test, ast.Compare) and len(test.ops) == 1):
+                    continue
+                l, op, r = test.left, type(test.ops[0]).__name__, test.comparators[0]
+                if isinstance(r, ast.Name) and r.id == x and not (isinstance(l, ast.Name) and l.id == x):
+                    l, r = r, l
+                    op = {"Lt": "Gt", "Gt": "Lt", "LtE": "GtE", "GtE": "LtE"}.get(op, op)
+                if not (isinstance(l, ast.Name) and l.id == x and op in ("Lt", "Gt", "LtE", "GtE") and ast.dump(r) == ast.dump(K)):
+                    continue
+                if any(isinstance(y, (ast.Await, ast.Yield, ast.YieldFrom, ast.NamedExpr, ast.Lambda)) or (isinstance(y, ast.Name) and y.id == x) for y in ast.walk(K)):
+                    continue
+                fn_ = "min" if op in ("Gt", "GtE") else "max"
+                call = ast.Call(func=ast.Name(id=fn_, ctx=ast.Load()), args=[ast.Name(id=x, ctx=ast.Load()), _copy.deepcopy(K)], keywords=[])
+                new = ast.Assign(targets=[ast.Name(id=x, ctx=ast.Store())], value=call, type_comment=None)
+                ast.copy_location(new, st.body[0])
+                if pre:
+                    new = ast.If(test=pre[0] if len(pre) == 1 else ast.BoolOp(op=ast.And(), values=list(pre)), body=[new], orelse=[])
+                    ast.copy_location(new, st)
+                ast.fix_missing_locations(new)
+                b[i] = new
+                done += 1
+                # `x = E` right before the clamp: one statement `x = min(E, K)` (E is evaluated first in both)
+                if not pre and i > 0 and type(b[i - 1]) is ast.Assign and len(b[i - 1].targets) == 1 and isinstance(b[i - 1].targets[0], ast.Name) and b[i - 1].targets[0].id == x \
+                        and not any(isinstance(y, (ast.Await, ast.Yield, ast.YieldFrom, ast.NamedExpr, ast.Lambda)) for y in ast.walk(b[i - 1].value)):
+                    call.args[0] = b[i - 1].value
+                    b[i - 1] = ast.copy_location(ast.Pass(), b[i - 1])
+    return done
+
+
+def _canon_bool_temps(tree: ast.AST) -> int:
+    """`t = <comparison / and / or / not>` directly followed by an `if` whose test evaluates t first, t bound and read nowhere
+    else: the expression is tested where it was computed (`ready = c is None or c.done()` / `if not ready or ..:`)."""
+    from .inline import _first_evaluated
+
+    done = 0
+    for fn in [n for n in ast.walk(tree) if isinstance(n, (ast.FunctionDef, ast.AsyncFunctionDef))]:
+        counts: dict[str, list] = {}
+        for n in ast.walk(fn):
+            if isinstance(n, ast.Name):
+                c = counts.setdefault(n.id, [0, 0])
+                c[0 if isinstance(n.ctx, ast.Load) else 1] += 1
+        for holder in list(ast.walk(fn)):
+            for field in ("body", "orelse", "finalbody"):
+                b = getattr(holder, field, None)
+                if not (isinstance(b, list) and len(b) >= 2 and isinstance(b[0], ast.stmt)):
+                    continue
+                i = 0
+                while i + 1 < len(b):
+                    a, nxt = b[i], b[i + 1]
+                    i += 1
+                    if not (type(a) is ast.Assign and len(a.targets) == 1 and isinstance(a.targets[0], ast.Name) and type(nxt) is ast.If
+                            and isinstance(a.value, (ast.BoolOp, ast.Compare)) or (type(a) is ast.Assign and len(a.targets) == 1 and isinstance(a.targets[0], ast.Name) and type(nxt) is ast.If
+                                                                                   and isinstance(a.value, ast.UnaryOp) and isinstance(a.value.op, ast.Not))):
+                        continue
+                    t = a.targets[0].id
+                    if counts.get(t) != [1, 1] or any(isinstance(y, (ast.NamedExpr, ast.Await, ast.Yield, ast.YieldFrom, ast.Lambda)) for y in ast.walk(a.value)):
+                        continue
+                    go = _first_evaluated(nxt.test, lambda nd: isinstance(nd, ast.Name) and nd.id == t)
+                    # _first_evaluated does not descend into and/or: take the first operand chain by hand
+                    root, setter = nxt.test, (lambda v, n_=nxt: setattr(n_, "test", v))
+                    while isinstance(root, ast.BoolOp) or (isinstance(root, ast.UnaryOp) and isinstance(root.op, ast.Not)):
+                        if isinstance(root, ast.BoolOp):
+                            root, setter = root.values[0], (lambda v, n_=root: n_.values.__setitem__(0, v))
+                        else:
+                            root, setter = root.operand, (lambda v, n_=root: setattr(n_, "operand", v))
+                    r = go(root, setter)
+                    if r is None:
+                        continue
+                    r[0](a.value)
+                    del b[i - 1]
+                    i -= 1
+                    done += 1
+    return done
+
+
+def _canon_flag_loops(fn: ast.AST) -> int:
+    """`while not done and ..:` whose body ends a round with `done = True`: a `break` is put behind that assignment.
+
+    In tail position of the loop body (nothing of the round is executed after it) the assignment makes the next evaluation of
+    the loop test fail at its first conjunct, which is what `break` does (no loop `else`); the flag keeps its value.  The loop
+    test then never sees a true flag, and the graph has the exit where the code decides it instead of one merge point later."""
+    done = 0
+    for loop in ast.walk(fn):
+        if not (isinstance(loop, ast.While) and not loop.orelse):
+            continue
+        conj = loop.test.values if isinstance(loop.test, ast.BoolOp) and isinstance(loop.test.op, ast.And) else [loop.test]
+        flags: dict[str, bool] = {}  # name -> the truth value that ends the loop
+        for i, c in enumerate(conj):
+            if any(isinstance(x, (ast.NamedExpr, ast.Call, ast.Await, ast.Yield, ast.YieldFrom)) for e in conj[:i] for x in ast.walk(e)):
+                break
+            if isinstance(c, ast.Name):
+                flags[c.id] = False
+            elif isinstance(c, ast.UnaryOp) and isinstance(c.op, ast.Not) and isinstance(c.operand, ast.Name):
+                flags[c.operand.id] = True
+        if not flags:
+            continue
+
+        def tails(block: list):
+            if not block:
+                return
+            st = block[-1]
+            if type(st) is ast.Assign and len(st.targets) == 1 and isinstance(st.targets[0], ast.Name) and st.targets[0].id in flags \
+                    and isinstance(st.value, ast.Constant) and isinstance(st.value.value, bool) and st.value.value is flags[st.targets[0].id]:
+                yield block
+            elif type(st) is ast.If:
+                yield from tails(st.body)
+                yield from tails(st.orelse)
+            elif isinstance(st, (ast.With, ast.AsyncWith)):
+                yield from tails(st.body)
+
+        for block in list(tails(loop.body)):
+            block.append(ast.copy_location(ast.Break(), block[-1]))
+            done += 1
+
+        # `done = True; continue`: the jump to the loop test, which fails at the flag - the same `break`, wherever it stands
+        def conts(block: list):
+            for i, st in enumerate(block):
+                if isinstance(st, (ast.For, ast.AsyncFor, ast.While, ast.FunctionDef, ast.AsyncFunctionDef, ast.ClassDef)):
+                    continue
+                if isinstance(st, ast.Continue) and i > 0:
+                    p_ = block[i - 1]
+                    if type(p_) is ast.Assign and len(p_.targets) == 1 and isinstance(p_.targets[0], ast.Name) and p_.targets[0].id in flags \
+                            and isinstance(p_.value, ast.Constant) and isinstance(p_.value.value, bool) and p_.value.value is flags[p_.targets[0].id]:
+                        yield block, i
+                for fld in ("body", "orelse", "finalbody"):
+                    b_ = getattr(st, fld, None)
+                    if isinstance(b_, list) and b_ and isinstance(b_[0], ast.stmt):
+                        yield from conts(b_)
+                for h_ in getattr(st, "handlers", []) or []:
+                    yield from conts(h_.body)
+
+        for block, i in list(conts(loop.body)):
+            block[i] = ast.copy_location(ast.Break(), block[i])
+            done += 1
     return done
 
 
@@ -338,6 +642,17 @@ def _acc_shape(body: list, acc: str):
             body = list(st.body)
             continue
         break
+    tmp = None
+    if len(body) == 2 and not conds:
+        # `x = E ; acc.append(x)`: the element built in a temporary first
+        a = body[0]
+        if isinstance(a, ast.AnnAssign) and a.simple and a.value is not None and isinstance(a.target, ast.Name):
+            tmp = (a.target.id, a.value)
+        elif type(a) is ast.Assign and len(a.targets) == 1 and isinstance(a.targets[0], ast.Name):
+            tmp = (a.targets[0].id, a.value)
+        if tmp is None:
+            return None
+        body = body[1:]
     if len(body) != 1:
         return None
     st = body[0]
@@ -347,7 +662,11 @@ def _acc_shape(body: list, acc: str):
     if not (isinstance(c.func, ast.Attribute) and c.func.attr == "append" and isinstance(c.func.value, ast.Name) and c.func.value.id == acc
             and len(c.args) == 1 and not c.keywords and not isinstance(c.args[0], ast.Starred)):
         return None
-    return conds, c.args[0]
+    if tmp is not None:
+        if not (isinstance(c.args[0], ast.Name) and c.args[0].id == tmp[0]):
+            return None
+        return conds, tmp[1], tmp[0]
+    return conds, c.args[0], None
 
 
 def _canon_acc_loops(fn: ast.AST) -> int:
@@ -357,10 +676,29 @@ def _canon_acc_loops(fn: ast.AST) -> int:
     Not rewritten when the loop variables are read outside the loop (a comprehension does not leak them), when the body
     holds anything else (temporaries, other effects, break / return / yield), or when ``acc`` occurs inside the loop
     other than as the receiver of the one ``append``."""
+    total = 0
+    for _round in range(3):  # an inner loop first, then the loop around it
+        n_ = _canon_acc_loops_once(fn)
+        total += n_
+        if not n_:
+            break
+    return total
+
+
+def _canon_acc_loops_once(fn: ast.AST) -> int:
     loads: dict[str, int] = {}
     for n in ast.walk(fn):
         if isinstance(n, ast.Name) and isinstance(n.ctx, ast.Load):
             loads[n.id] = loads.get(n.id, 0) + 1
+    # reads of a name inside the body of a `for` that binds that very name: they see the loop's binding, whatever the name held before
+    rebound: dict[str, int] = {}
+    for lp in ast.walk(fn):
+        if isinstance(lp, (ast.For, ast.AsyncFor)):
+            names = {t.id for t in ast.walk(lp.target) if isinstance(t, ast.Name)}
+            for st in lp.body:
+                for n in ast.walk(st):
+                    if isinstance(n, ast.Name) and isinstance(n.ctx, ast.Load) and n.id in names:
+                        rebound[n.id] = rebound.get(n.id, 0) + 1
     done = 0
     for holder in list(ast.walk(fn)):
         for field in ("body", "orelse", "finalbody"):
@@ -384,9 +722,11 @@ def _canon_acc_loops(fn: ast.AST) -> int:
                 shape = _acc_shape(loop.body, tgt.id)
                 if shape is None:
                     continue
-                conds, elt = shape
+                conds, elt, tmp = shape
                 inner = [loop.iter, elt] + conds
                 bad = False
+                if tmp is not None and (loads.get(tmp, 0) - rebound.get(tmp, 0) != 1 or any(isinstance(n, ast.Name) and n.id == tmp for e in inner for n in ast.walk(e))):
+                    continue  # the temporary is read somewhere else: it has to stay
                 inside: dict[str, int] = {}
                 for e in inner:
                     for n in ast.walk(e):
@@ -464,6 +804,8 @@ class Program:
         keep = known_names([os.path.join(d, f) for d in (rules_dir, spec_dir) if os.path.isdir(d) for f in sorted(os.listdir(d)) if f.endswith(".py")])
         self.inline_stats = {"inlined_calls": 0, "helpers_removed": [], "helpers_inlined": []}
         cm_stats = {}
+        if os.environ.get("VERIF_SA_NO_FLAGLOOP") != "1":
+            cm_stats["flag_loops"] = sum(_canon_flag_loops(m.tree) for mn, m in self.modules.items() if not mn.startswith(PKG + ".testing") and mn != PKG + ".testing")
         if os.environ.get("VERIF_SA_NO_DISPATCH") != "1":
             from .dispatch import spell_out_dispatch
 
@@ -483,8 +825,15 @@ class Program:
             from .unroll import unroll_package
 
             self.inline_stats.update(unroll_package({mn: (m.tree, m.is_pkg) for mn, m in self.modules.items() if not mn.startswith(PKG + ".testing") and mn != PKG + ".testing"}))
+        if os.environ.get("VERIF_SA_NO_ALIAS") != "1":
+            from .aliases import inline_stable_aliases
+
+            self.inline_stats.update(inline_stable_aliases({mn: m.tree for mn, m in self.modules.items() if not mn.startswith(PKG + ".testing") and mn != PKG + ".testing"}))
         for m in self.modules.values():
             m.tree = _Canon().visit(m.tree)
+            if os.environ.get("VERIF_SA_NO_CLAMP") != "1" and not (m.name == PKG + ".testing" or m.name.startswith(PKG + ".testing.")):
+                self.inline_stats["clamps"] = self.inline_stats.get("clamps", 0) + _canon_clamps(m.tree)
+                self.inline_stats["bool_temps"] = self.inline_stats.get("bool_temps", 0) + _canon_bool_temps(m.tree)
             if os.environ.get("VERIF_SA_NO_IFEXP") != "1" and not (m.name == PKG + ".testing" or m.name.startswith(PKG + ".testing.")):
                 self.inline_stats["ifexp_assigns"] = self.inline_stats.get("ifexp_assigns", 0) + _canon_ifexp_assign(m.tree)
             if os.environ.get("VERIF_SA_NO_ACCLOOP") != "1" and not (m.name == PKG + ".testing" or m.name.startswith(PKG + ".testing.")):
